@@ -284,8 +284,13 @@ func c17(c *Ctx) {
 		var found *an.Cond
 		for _, i := range an.Ifs(tp) {
 			cd, ok := an.Classify(i)
-			if ok && cd.Kind == "bool" && strings.Contains(tr.OriginString(cd.X), "?extract") {
-				found = cd
+			if !ok || cd.Kind != "bool" {
+				continue
+			}
+			if ex, isEx := cd.X.(*ssa.Extract); isEx && ex.Index == 1 {
+				if lk, isLk := ex.Tuple.(*ssa.Lookup); isLk && strings.HasSuffix(tr.OriginString(lk.X), "MTProto.dclist") {
+					found = cd
+				}
 			}
 		}
 		if found == nil {
@@ -311,6 +316,43 @@ func c17(c *Ctx) {
 				}
 			}
 			r.Check(stored && reconn, "R17.M", "known-dc-switches-and-reconnects", c.pos(found.If.Cond.Pos()), "m.addr is set to the configured address and then Reconnect() is called")
+			// … and the outcome of the handling is the outcome of the reconnect: every exit after it returns
+			// Reconnect()'s result (nil = handled, the caller repeats the request), never the original error
+			var rc ssa.Value
+			for _, cs := range an.Calls(tp) {
+				if strings.HasSuffix(cs.Name, "MTProto).Reconnect") && cs.Value() != nil {
+					rc = cs.Value()
+				}
+			}
+			okRet, nRet := rc != nil, 0
+			if rc != nil {
+				seen := map[*ssa.BasicBlock]bool{}
+				var walk func(b *ssa.BasicBlock)
+				walk = func(b *ssa.BasicBlock) {
+					if seen[b] {
+						return
+					}
+					seen[b] = true
+					if ret, ok := b.Instrs[len(b.Instrs)-1].(*ssa.Return); ok && len(ret.Results) == 1 {
+						nRet++
+						v := ret.Results[0]
+						if phi, isPhi := v.(*ssa.Phi); isPhi {
+							for _, e := range phi.Edges {
+								if e != rc && !an.IsNilConst(e) {
+									okRet = false
+								}
+							}
+						} else if v != rc && !an.IsNilConst(v) {
+							okRet = false
+						}
+					}
+					for _, s := range b.Succs {
+						walk(s)
+					}
+				}
+				walk(rc.(*ssa.Call).Block())
+			}
+			r.Check(okRet && nRet > 0, "R17.M", "handled-means-nil", c.pos(found.If.Cond.Pos()), "after the reconnect the function returns the reconnect's own result: a successful switch is reported as nil so that the request is repeated")
 		}
 	}
 	if mk := c.P.Func(load.RootMod, "*MTProto", "makeRequest"); mk != nil {
